@@ -69,6 +69,11 @@ func newDuplexHTTPCall(
 		url,
 		pipeReader,
 	)
+	if err != nil {
+		// (NewRequestWithContext returns no request then: keep the header
+		// accessors working on a placeholder.)
+		request = &http.Request{}
+	}
 	request.Header = header
 	client := &duplexHTTPCall{
 		ctx:               ctx,
@@ -87,6 +92,9 @@ func newDuplexHTTPCall(
 		client.sendRequestOnce.Do(func() {})
 		connectErr := errorf(CodeUnavailable, "construct *http.Request: %w", err)
 		client.SetError(connectErr)
+		// There will never be a response: don't make Read and CloseRead wait for
+		// one.
+		close(client.responseReady)
 	}
 	return client
 }
